@@ -523,29 +523,27 @@ impl<C: IterConfig> BucketIter<C> {
 
             match segment_iter.next(limit).await? {
                 Some(commits) => {
-                    self.last_position = self
-                        .config
-                        .extract_last_position(
-                            commits
-                                .last()
-                                .expect("commits should not be empty if Some is returned"),
-                        )
-                        .map(|v| match self.dir {
-                            IterDirection::Forward => v + 1,
-                            IterDirection::Reverse => v.saturating_sub(1),
-                        })
-                        .unwrap_or(self.last_position);
-
                     // Apply filtering
                     let commits: Vec<_> = commits
                         .into_iter()
                         .filter_map(|commit| self.config.filter_commit(commit))
                         .collect();
 
-                    if commits.is_empty() {
+                    let Some(last_commit) = commits.last() else {
                         warn!("transaction had no events for {}", self.config.id());
                         continue;
-                    }
+                    };
+
+                    // The position must come from the filtered events: the last event of a
+                    // transaction may belong to another stream with an unrelated version.
+                    self.last_position = self
+                        .config
+                        .extract_last_position(last_commit)
+                        .map(|v| match self.dir {
+                            IterDirection::Forward => v + 1,
+                            IterDirection::Reverse => v.saturating_sub(1),
+                        })
+                        .unwrap_or(self.last_position);
 
                     return Ok(Some(commits));
                 }
